@@ -3,7 +3,8 @@
 // wallets (matching / near-matching / decoy credentials, JSON-LD and JWT). For every (definition, wallet) the REAL
 // Match / PresentationSubmissionBuilder.Build / ParseEnvelope / Validate / ResolveConstraintsFields and the real
 // PEXConsumer (auth/api/iam) are called; an independent reference matcher (ref_test.go) decides soundness,
-// completeness, agreement, unforgeability (mutated submissions) and claim extraction.
+// completeness, agreement, unforgeability (mutated submissions) and claim extraction. Verifier soundness is also
+// driven with envelopes that hold id-colliding credentials (twin_test.go).
 package c12
 
 import (
@@ -96,7 +97,9 @@ func TestCheck(t *testing.T) {
 		"(fields with const/enum/pattern(0|1 group)/type filters on string/number/boolean/array values, optional fields, per-descriptor and top-level format, " +
 		"submission_requirements all/pick with every subset of count/min/max, from_nested depth<=3); wallets hold matching, near-matching (one constraint off) and decoy " +
 		"credentials as JSON-LD and JWT; each case runs the real Match/Build/ParseEnvelope/Validate/ResolveConstraintsFields/PEXConsumer over 5 envelope shapes and ~14 mutated " +
-		"submissions and is judged by an independent reference matcher. Non-trivial: >=1 input descriptor and >=1 wallet credential; distinct by (definition structure fingerprint, wallet class, outcome).")
+		"submissions and is judged by an independent reference matcher; in addition every accepted selection is re-presented in envelopes that also hold a twin of a selected credential " +
+		"(same id - or both id-less - but other content: fails the descriptor / other claim values / re-issued; JSON-LD and JWT; single, array and second-presentation placement) with the descriptor map forged to the twin, " +
+		"where the reference's first-match vector decides that the twin is not what matching selects and the oracle checks reject plus the credential and field values the verifier reports. Non-trivial: >=1 input descriptor and >=1 wallet credential; distinct by (definition structure fingerprint, wallet class, outcome).")
 	r.Require(r.Pick(600, 6000), r.Pick(300, 3000))
 	r.Assume("credential JSON view per securing format as used by the repo's own fixtures (vcr/pe/test as_jsonld / as_jwt): JSON-LD credentials in compact form (single type / credentialSubject unwrapped), JWT credentials in expanded form (type and credentialSubject are arrays, registered claims mapped back); claims live in credentialSubject or the standard top-level properties")
 	r.Assume("JSONPath forms limited to $ .name [\"name\"] [n]; single-quoted bracket notation is not generated (the third-party jsonpath library only parses single-character single-quoted names)")
@@ -148,6 +151,10 @@ func TestCheck(t *testing.T) {
 	if r.Get("matches_found") == 0 || r.Get("matches_not_found") == 0 || r.Get("mutants_rejected") == 0 || r.Get("extraction_comparisons") == 0 || r.Get("submissions_validated") == 0 {
 		r.Fatalf("monitor observed too little: found=%d notfound=%d mutants_rejected=%d extraction=%d validated=%d", r.Get("matches_found"), r.Get("matches_not_found"),
 			r.Get("mutants_rejected"), r.Get("extraction_comparisons"), r.Get("submissions_validated"))
+	}
+	if r.Get("twin_forged_evaluated") == 0 || r.Get("twin_baseline_accepted") == 0 || r.Get("twin_forged_resolves_to_twin") == 0 {
+		r.Fatalf("monitor observed too little on id-colliding envelopes: forged=%d baseline_accepted=%d forged_resolves_to_twin=%d", r.Get("twin_forged_evaluated"),
+			r.Get("twin_baseline_accepted"), r.Get("twin_forged_resolves_to_twin"))
 	}
 }
 
@@ -641,6 +648,11 @@ func evaluate(r *ev.Run, in *caseIn) (out *caseOut) {
 	if len(selPairs) > 0 {
 		k := in.idx % len(accepted)
 		mutate(out, in, rnd, accepted[k], selPairs, selection, byRaw, byKey)
+		// --- verifier soundness on envelopes with id-colliding credentials (twin_test.go)
+		twins(out, in, rnd, selPairs, byKey)
+		if out.fatal != "" {
+			return
+		}
 	}
 	out.sample = map[string]any{"definition": json.RawMessage(in.raw), "wallet": w.class, "selected": selection.list(), "envelope_shapes": len(accepted)}
 	return
@@ -947,13 +959,22 @@ func checkExtraction(out *caseOut, in *caseIn, credMap map[string]vc.VerifiableC
 	compareExtraction(out, in, got, selPairs, byKey, side+"/ResolveConstraintsFields")
 }
 
-func compareExtraction(out *caseOut, in *caseIn, got map[string]any, selPairs [][2]string, byKey map[string]*cred, via string) {
+type extractionDiff struct {
+	class, field string
+	reported     any
+	want         []any
+}
+
+// extractionDiffs compares reported field values with what the reference finds in the mapped credentials (selPairs:
+// descriptor id -> credential key). sound=false: a mapped credential does not satisfy its descriptor (reported elsewhere).
+func extractionDiffs(in *caseIn, got map[string]any, selPairs [][2]string, byKey map[string]*cred) (diffs []extractionDiff, unexpected []string, compared int, sound bool) {
 	type expect struct {
 		allowed [][]any
 		absent  bool
 		classes []string
 	}
 	exp := map[string]*expect{}
+	var ids []string
 	for _, p := range selPairs {
 		x := in.rd.desc(p[0])
 		c := byKey[p[1]]
@@ -964,12 +985,13 @@ func compareExtraction(out *caseOut, in *caseIn, got map[string]any, selPairs []
 			}
 			fr := f.eval(c.view)
 			if !fr.ok {
-				return // unsound mapping: reported elsewhere
+				return nil, nil, 0, false
 			}
 			e := exp[*f.ID]
 			if e == nil {
 				e = &expect{}
 				exp[*f.ID] = e
+				ids = append(ids, *f.ID)
 			}
 			if fr.present {
 				e.allowed = append(e.allowed, fr.allowed)
@@ -979,8 +1001,10 @@ func compareExtraction(out *caseOut, in *caseIn, got map[string]any, selPairs []
 			e.classes = append(e.classes, extractionClass(f, fr))
 		}
 	}
-	for id, e := range exp {
-		out.count("extraction_comparisons", 1)
+	sort.Strings(ids)
+	for _, id := range ids {
+		e := exp[id]
+		compared++
 		v, has := got[id]
 		ok := false
 		if (!has || v == nil) && e.absent {
@@ -1000,14 +1024,30 @@ func compareExtraction(out *caseOut, in *caseIn, got map[string]any, selPairs []
 			for _, set := range e.allowed {
 				want = append(want, set...)
 			}
-			out.find("C12/extraction/"+e.classes[0], fmt.Sprintf("%s: field %q is reported as %s, the credential holds %s", via, id, mustJSON(v), mustJSON(want)),
-				map[string]any{"definition": json.RawMessage(in.raw), "mapping": selPairs, "field": id, "reported": v, "allowed": want})
+			diffs = append(diffs, extractionDiff{class: e.classes[0], field: id, reported: v, want: want})
 		}
 	}
 	for id := range got {
 		if exp[id] == nil {
-			out.find("C12/extraction/unexpected-claim", fmt.Sprintf("%s reports a value for %q which is not a named field of a mapped descriptor", via, id), map[string]any{"definition": json.RawMessage(in.raw), "mapping": selPairs})
+			unexpected = append(unexpected, id)
 		}
+	}
+	sort.Strings(unexpected)
+	return diffs, unexpected, compared, true
+}
+
+func compareExtraction(out *caseOut, in *caseIn, got map[string]any, selPairs [][2]string, byKey map[string]*cred, via string) {
+	diffs, unexpected, compared, sound := extractionDiffs(in, got, selPairs, byKey)
+	if !sound {
+		return // unsound mapping: reported elsewhere
+	}
+	out.count("extraction_comparisons", compared)
+	for _, d := range diffs {
+		out.find("C12/extraction/"+d.class, fmt.Sprintf("%s: field %q is reported as %s, the credential holds %s", via, d.field, mustJSON(d.reported), mustJSON(d.want)),
+			map[string]any{"definition": json.RawMessage(in.raw), "mapping": selPairs, "field": d.field, "reported": d.reported, "allowed": d.want})
+	}
+	for _, id := range unexpected {
+		out.find("C12/extraction/unexpected-claim", fmt.Sprintf("%s reports a value for %q which is not a named field of a mapped descriptor", via, id), map[string]any{"definition": json.RawMessage(in.raw), "mapping": selPairs})
 	}
 }
 
